@@ -282,6 +282,71 @@ static std::vector<Frame> alphabet(int dlt) {
     return v;
 }
 
+// A packet that was just BUILT and never serialized: its derived length fields (IP total length, UDP length, PPPoE / 802.3 /
+// EAPOL lengths, RadioTap it_len ...) are still unset when PacketWriter::write gets it.  Same expressions as in alphabet() for
+// W1 / W2 (setup_checks compares the serializations), plus per-link-type extras that are only used by the writer checks.
+static PDU* build_fresh(int dlt, const std::string& name) {
+    const bool a = name == "W1", b = name == "W2";
+    if (!a && !b) return 0;
+    switch (dlt) {
+        case DLT_EN10MB: return a ? new EthernetII(EthernetII(M2, M1) / ip_tcp80()) : new EthernetII(EthernetII(M2, M3) / Dot1Q(5) / ip_udp_short(40));
+        case DLT_RAW: return a ? static_cast<PDU*>(new IP(ip_tcp80())) : static_cast<PDU*>(new IPv6(IPv6("fe80::2", "fe80::1") / UDP(53, 1000) / RawPDU(pattern(5, 9))));
+        case DLT_NULL: return a ? new Loopback(Loopback() / ip_tcp80()) : new Loopback(Loopback() / IPv6("fe80::2", "fe80::1") / UDP(53, 1000) / RawPDU(pattern(5, 9)));
+        case DLT_LINUX_SLL: {
+            SLL s; s.packet_type(0); s.lladdr_type(1); s.lladdr_len(6); s.address(HWAddress<8>("02:00:00:00:00:01:00:00"));
+            return a ? new SLL(s / ip_tcp80()) : new SLL(s / ip_udp_short(5)); }
+        case DLT_IEEE802_11: case DLT_IEEE802_11_RADIO: {
+            Dot11Beacon be; be.addr1(Dot11::BROADCAST); be.addr2(M1); be.addr3(M1); be.ssid("c17"); be.ds_parameter_set(6); be.supported_rates({1.0f, 2.0f, 5.5f, 11.0f});
+            Dot11Data d; d.addr1(M2); d.addr2(M3); d.addr3(M3);
+            if (dlt == DLT_IEEE802_11) return a ? static_cast<PDU*>(new Dot11Beacon(be)) : static_cast<PDU*>(new Dot11Data(d / SNAP() / ip_tcp80()));
+            return a ? new RadioTap(RadioTap() / be) : new RadioTap(RadioTap() / (d / SNAP() / ip_tcp80())); }
+    }
+    return 0;        // PPI cannot be serialized
+}
+struct Built { std::string name; std::function<PDU*()> make; };
+static std::vector<Built> built_packets(int dlt) {
+    std::vector<Built> v;
+    v.push_back(Built{"W1", [dlt]() { return build_fresh(dlt, "W1"); }});
+    v.push_back(Built{"W2", [dlt]() { return build_fresh(dlt, "W2"); }});
+    auto ip_udp40 = []() { return IP("10.0.0.2", "10.0.0.1") / UDP(53, 1000) / RawPDU(pattern(40, 3)); };
+    auto ip6_udp = []() { return IPv6("fe80::2", "fe80::1") / UDP(53, 1000) / RawPDU(pattern(33, 3)); };
+    switch (dlt) {
+        case DLT_EN10MB:
+            v.push_back(Built{"Eth/IP/UDP/Raw(40)", [=]() { return new EthernetII(EthernetII(M2, M1) / ip_udp40()); }});
+            v.push_back(Built{"Eth/IPv6/UDP", [=]() { return new EthernetII(EthernetII(M2, M1) / ip6_udp()); }});
+            v.push_back(Built{"Eth/PPPoE/Raw", []() { PPPoE pp; pp.code(0); pp.session_id(7); return new EthernetII(EthernetII(M2, M1) / pp / RawPDU(pattern(60, 3))); }});
+            v.push_back(Built{"Dot3/LLC/Raw", []() { return new Dot3(Dot3(M2, M1) / LLC(0x42, 0x42) / RawPDU(pattern(70, 3))); }});
+            v.push_back(Built{"Eth/RSNEAPOL", []() { RSNEAPOL e; e.key_length(16); e.wpa_length(0); return new EthernetII(EthernetII(M2, M1) / e); }});
+            v.push_back(Built{"Eth/IP/ICMP", []() { return new EthernetII(EthernetII(M2, M1) / IP("10.0.0.2", "10.0.0.1") / ICMP() / RawPDU(pattern(48, 3))); }});
+            break;
+        case DLT_RAW:
+            v.push_back(Built{"IP/UDP/Raw(40)", [=]() { return new IP(ip_udp40()); }});
+            v.push_back(Built{"IPv6/TCP", []() { return new IPv6(IPv6("fe80::2", "fe80::1") / TCP(80, 1000) / RawPDU(pattern(64, 3))); }});
+            v.push_back(Built{"IP/IP/UDP", [=]() { return new IP(IP("10.0.0.2", "10.0.0.1") / ip_udp40()); }});
+            break;
+        case DLT_NULL:
+            v.push_back(Built{"Loopback/IP/UDP", [=]() { return new Loopback(Loopback() / ip_udp40()); }});
+            v.push_back(Built{"Loopback/IPv6/UDP", [=]() { return new Loopback(Loopback() / ip6_udp()); }});
+            break;
+        case DLT_LINUX_SLL:
+            v.push_back(Built{"SLL/IP/UDP", [=]() { SLL s; s.lladdr_type(1); s.lladdr_len(6); return new SLL(s / ip_udp40()); }});
+            v.push_back(Built{"SLL/IPv6/UDP", [=]() { SLL s; s.lladdr_type(1); s.lladdr_len(6); return new SLL(s / ip6_udp()); }});
+            break;
+        case DLT_IEEE802_11:
+            v.push_back(Built{"Dot11Data/SNAP/IP/UDP", [=]() { Dot11Data d; d.addr1(M2); d.addr2(M3); d.addr3(M3); return new Dot11Data(d / SNAP() / ip_udp40()); }});
+            v.push_back(Built{"Dot11QoSData/SNAP/IPv6/UDP", [=]() { Dot11QoSData d; d.addr1(M2); d.addr2(M3); d.addr3(M3); return new Dot11QoSData(d / SNAP() / ip6_udp()); }});
+            break;
+        case DLT_IEEE802_11_RADIO:
+            v.push_back(Built{"RadioTap/Dot11Data/SNAP/IP/UDP", [=]() { Dot11Data d; d.addr1(M2); d.addr2(M3); d.addr3(M3); return new RadioTap(RadioTap() / (d / SNAP() / ip_udp40())); }});
+            break;
+        case DLT_PPI:
+            v.clear();
+            v.push_back(Built{"RawPDU(77)", []() { return new RawPDU(pattern(77, 3)); }});
+            break;
+    }
+    return v;
+}
+
 // what PacketWriter is given for a frame, and what that puts into the file
 static Frame second_generation(int dlt, const Frame& f) {
     Frame g;
@@ -328,8 +393,18 @@ static std::string parse_image(const Bytes& b, uint32_t& linktype, uint32_t& sna
 // ------------------------------------------------------------------------------------------------ filters (oracle = libpcap itself)
 // the last one is the empty expression, which libpcap compiles to "accept every frame" (the harness does not assume that: it
 // compiles it like the others and asks pcap_offline_filter)
-static const char* FILTERS[] = {"ip", "tcp port 80", "udp", "vlan", "ether src 02:00:00:00:00:01", "len > 60", "wlan type mgt", ""};
-static const int NFILTERS = 8;
+// Entries 8..11 are length-based ("greater N" = len >= N, "less N" = len <= N, on the ORIGINAL length of the record, not on
+// the captured length); N is set per link type to the size of its W1 frame by init_ctx (the default keeps them compilable).
+static const int NBASE = 8, NFILTERS = 12;
+static std::string FILTER_TEXT[NFILTERS] = {"ip", "tcp port 80", "udp", "vlan", "ether src 02:00:00:00:00:01", "len > 60", "wlan type mgt", "",
+                                            "greater 80", "less 80", "len >= 81", "len < 80"};
+static const char* FILTERS[NFILTERS] = {FILTER_TEXT[0].c_str(), FILTER_TEXT[1].c_str(), FILTER_TEXT[2].c_str(), FILTER_TEXT[3].c_str(), FILTER_TEXT[4].c_str(),
+                                        FILTER_TEXT[5].c_str(), FILTER_TEXT[6].c_str(), FILTER_TEXT[7].c_str(), FILTER_TEXT[8].c_str(), FILTER_TEXT[9].c_str(),
+                                        FILTER_TEXT[10].c_str(), FILTER_TEXT[11].c_str()};
+static void set_length_filters(size_t n) {
+    FILTER_TEXT[8] = "greater " + str(n); FILTER_TEXT[9] = "less " + str(n); FILTER_TEXT[10] = "len >= " + str(n + 1); FILTER_TEXT[11] = "len < " + str(n);
+    for (int i = 8; i < NFILTERS; ++i) FILTERS[i] = FILTER_TEXT[i].c_str();
+}
 // libpcap generates link-type code that depends on whether the handle reads a savefile (e.g. DLT_NULL: the BSD AF_INET6
 // values in a savefile, this host's AF_INET6 otherwise), so the reference program is compiled in the same libpcap context
 // as the API under test: on a savefile handle of the harness' own for the sniffer, on a pcap_open_dead handle for
@@ -750,9 +825,9 @@ static void run_case(Ctx& cx, const std::vector<int>& seq, int rot, bool full) {
         struct Combo { int f1, f2, k, inst; };
         std::vector<Combo> combos;
         const int kmax = n < 2 ? (int)n : 2;
-        for (int f1 = 0; f1 < NFILTERS; ++f1) {
+        for (int f1 = 0; f1 < NBASE; ++f1) {          // the length-based expressions take part in B and D, not in the replacement product
             if (!cx.orc.valid[f1] || !cx.orc.valid_file[f1]) continue;
-            for (int f2 = 0; f2 < NFILTERS; ++f2) {
+            for (int f2 = 0; f2 < NBASE; ++f2) {
                 if (!cx.orc.valid[f2] || !cx.orc.valid_file[f2]) continue;
                 for (int k = 0; k <= kmax; ++k) for (int inst = 0; inst < 2; ++inst) combos.push_back(Combo{f1, f2, k, inst});
             }
@@ -778,22 +853,31 @@ static void run_case(Ctx& cx, const std::vector<int>& seq, int rot, bool full) {
         read_and_judge("sniffer-cut-file", cut.path, cexp, R_LOOP_PKTREF, 0, M_EXACT, C_FILE_CFG, 0, false);
     }
 
-    // ---- D. PacketWriter: libtins packets in, file bytes checked, read back
-    for (int wv = 0; wv < (full ? 3 : 1); ++wv) {          // 0: write(Packet&) exact timestamps; 1: write(PDU&); 2: write(begin, end)  (wall clock)
+    // ---- D. PacketWriter: libtins packets in; the file is parsed by the harness (global header + every record header), read back.
+    // wv 0: write(Packet&), exact timestamps, W1/W2 FRESHLY BUILT for this write (never serialized before);  1: write(PDU&), packets
+    // obtained by parsing;  2: write(begin, end), freshly built;  3: write(PDU&) TWICE on the same freshly built object.
+    for (int wv = 0; wv < (full ? 4 : 1); ++wv) {
         MemFile wf;
+        struct WRec { const Frame* g; bool never_truncated; size_t src; };
         std::vector<std::unique_ptr<PDU> > pdus;
+        std::vector<WRec> want;
         for (size_t i = 0; i < n; ++i) {
             const Frame& f = cx.alpha[seq[i]];
-            if (f.p.ok && f.p.serializable) pdus.push_back(std::unique_ptr<PDU>(f.p.obj->clone()));
+            PDU* fresh = wv != 1 ? build_fresh(dlt, f.name) : 0;
+            bool strict = true;
+            if (fresh) pdus.push_back(std::unique_ptr<PDU>(fresh));
+            else if (f.p.ok && f.p.serializable) { pdus.push_back(std::unique_ptr<PDU>(f.p.obj->clone())); strict = f.len == f.b.size(); }
             else pdus.push_back(std::unique_ptr<PDU>(new RawPDU(f.b.data(), (uint32_t)f.b.size())));
+            for (int rep = 0; rep < (wv == 3 ? 2 : 1); ++rep) want.push_back(WRec{&cx.gen2[seq[i]], strict, i});
         }
-        std::string where = std::string("PacketWriter ") + (wv == 0 ? "write(Packet&)" : wv == 1 ? "write(PDU&)" : "write(begin,end)");
+        std::string where = std::string("PacketWriter ") + (wv == 0 ? "write(Packet&) of freshly built packets" : wv == 1 ? "write(PDU&) of parsed packets" :
+                                                            wv == 2 ? "write(begin,end) of freshly built packets" : "write(PDU&) twice per freshly built packet");
         Mon::reset();
         try {
             std::unique_ptr<PacketWriter> w(make_writer(wf.path, dlt, (n + wv + rot) % 2 == 1));
-            for (size_t i = 0; i < n && wv < 2; ++i) {
+            for (size_t i = 0; i < n && wv != 2; ++i) {
                 if (wv == 0) { Packet p(*pdus[i], Timestamp((uint64_t)ts[i].sec * 1000000u + ts[i].usec)); w->write(p); }
-                else w->write(*pdus[i]);
+                else { w->write(*pdus[i]); if (wv == 3) w->write(*pdus[i]); }
                 if (mon_error()) viol(Mon::first, Mon::first_detail + " while writing", where);
                 Mon::reset();
             }
@@ -806,22 +890,97 @@ static void run_case(Ctx& cx, const std::vector<int>& seq, int rot, bool full) {
         std::string prob = parse_image(img, lt, snap, got);
         if (!prob.empty()) { viol("writer:file-structure", prob, where); continue; }
         if (lt != cx.link->file_linktype) { viol("writer:link-type", "file says " + str(lt) + ", expected " + str(cx.link->file_linktype), where); continue; }
-        if (got.size() != n) { viol("writer:record-count", "wrote " + str(n) + " packets, file has " + str(got.size()), where); continue; }
+        if (got.size() != want.size()) { viol("writer:record-count", "wrote " + str(want.size()) + " packets, file has " + str(got.size()), where); continue; }
         bool bad = false;
         std::vector<Exp> wexp;
-        for (size_t i = 0; i < n && !bad; ++i) {
-            const Frame& g = cx.gen2[seq[i]];
+        std::vector<uint32_t> explen;
+        for (size_t i = 0; i < want.size() && !bad; ++i) {
+            const Frame& g = *want[i].g;
+            const Ts& t = ts[want[i].src];
+            const uint32_t cap = (uint32_t)g.b.size();
+            const uint32_t len = want[i].never_truncated ? cap : (g.len > cap ? g.len : cap);     // a snap-truncated capture may advertise more, never less
+            R.count("writer_record_headers_checked");
             if (got[i].data != g.b) { viol("writer:bytes", "record " + str(i) + " (" + g.name + "): " + str(got[i].data.size()) + " bytes in file, packet serializes to " + str(g.b.size()), where); bad = true; }
-            else if (got[i].len != g.len) { viol("writer:wire-length", "record " + str(i) + ": len " + str(got[i].len) + ", advertised_size " + str(g.len), where); bad = true; }
+            else if (got[i].len < got[i].caplen) { viol("writer:original-length-below-captured-length", "record " + str(i) + " (" + g.name + "): len " + str(got[i].len) + " < caplen " + str(got[i].caplen), where); bad = true; }
+            else if (got[i].len != len) { viol("writer:original-length", "record " + str(i) + " (" + g.name + "): len " + str(got[i].len) + ", expected " + str(len) + (want[i].never_truncated ? " (packet was never truncated)" : ""), where); bad = true; }
             else if (snap < got[i].caplen) { viol("writer:snaplen", "file snaplen " + str(snap) + " < record of " + str(got[i].caplen), where); bad = true; }
-            else if (wv == 0 && (got[i].ts.sec != ts[i].sec || got[i].ts.usec != ts[i].usec)) {
-                viol("writer:timestamp", "record " + str(i) + ": wrote " + str(ts[i].sec) + "." + str(ts[i].usec) + ", file has " + str(got[i].ts.sec) + "." + str(got[i].ts.usec), where); bad = true;
+            else if (wv == 0 && (got[i].ts.sec != t.sec || got[i].ts.usec != t.usec)) {
+                viol("writer:timestamp", "record " + str(i) + ": wrote " + str(t.sec) + "." + str(t.usec) + ", file has " + str(got[i].ts.sec) + "." + str(got[i].ts.usec), where); bad = true;
             } else if (got[i].ts.usec >= 1000000u) { viol("writer:timestamp", "microseconds field " + str(got[i].ts.usec), where); bad = true; }
             if (g.p.ok) wexp.push_back(Exp{got[i].ts, &g});
+            explen.push_back(len);
         }
         if (bad) continue;
         read_and_judge("roundtrip", wf.path, wexp, R_NEXT, 0, M_LOOP, C_PATH_CFG, 0, false);
-        if (wv == 0) read_and_judge("roundtrip", wf.path, wexp, R_ITER_PRE, 0, M_EXACT, C_FILE_CFG, 0, false);
+        if (wv == 0) {
+            read_and_judge("roundtrip", wf.path, wexp, R_ITER_PRE, 0, M_EXACT, C_FILE_CFG, 0, false);
+            // the length-based expressions on the file PacketWriter produced: they see the record's original length
+            for (int fi = NBASE; fi < NFILTERS; ++fi) {
+                if (!cx.orc.valid[fi] || !cx.orc.valid_file[fi]) continue;
+                std::vector<Exp> fexp;
+                for (size_t i = 0; i < want.size(); ++i)
+                    if (want[i].g->p.ok && cx.orc.match_file(fi, want[i].g->b, explen[i])) fexp.push_back(Exp{got[i].ts, want[i].g});
+                read_and_judge("roundtrip-filter", wf.path, fexp, (fi + (int)n) % 2 ? R_NEXT : R_LOOP_PKTREF, 0, M_LOOP, (fi + (int)n) % N_CTOR, FILTERS[fi], false);
+            }
+        }
+    }
+}
+
+// Freshly built packets (the alphabet's W1/W2 and per-link-type extras with derived length fields) through every write overload:
+// first write of an object that was never serialized, second write of the same object, Packet / PDU / range overloads.
+// Reference bytes come from a DIFFERENT object built the same way and serialized by the harness.
+static void built_packet_checks(Ctx& cx) {
+    const int dlt = cx.link->dlt;
+    std::vector<Built> bl = built_packets(dlt);
+    for (size_t bi = 0; bi < bl.size(); ++bi) {
+        std::unique_ptr<PDU> refobj(bl[bi].make());
+        if (!refobj) continue;
+        Frame g; g.name = bl[bi].name; g.b = refobj->serialize(); g.len = (uint32_t)g.b.size(); g.want_fixpoint = false; g.p = parse_info(dlt, g.b);
+        for (int mode = 0; mode < 4; ++mode) {
+            g_case = std::string("lt=") + cx.link->name + " built=" + str(bi) + " mode=" + str(mode);
+            std::string where = "freshly built " + bl[bi].name + ", " + (mode == 0 ? "write(Packet&) once" : mode == 1 ? "write(PDU&) twice on the same object" :
+                                                                          mode == 2 ? "write(begin,end) of two fresh objects" : "the same Packet written twice");
+            MemFile wf;
+            const Ts t = TS[(bi + mode) % 3];
+            size_t nrec = mode == 0 ? 1 : 2;
+            Mon::reset();
+            try {
+                std::unique_ptr<PacketWriter> w(make_writer(wf.path, dlt, (bi + mode) % 2 == 1));
+                std::unique_ptr<PDU> a(bl[bi].make()), b(bl[bi].make());
+                if (mode == 0) { Packet p(a.release(), Timestamp((uint64_t)t.sec * 1000000u + t.usec), Packet::own_pdu()); w->write(p); }
+                else if (mode == 1) { w->write(*a); w->write(*a); }
+                else if (mode == 2) { std::vector<PDU*> v; v.push_back(a.get()); v.push_back(b.get()); w->write(v.begin(), v.end()); }
+                else { Packet p(a.release(), Timestamp((uint64_t)t.sec * 1000000u + t.usec), Packet::own_pdu()); w->write(p); w->write(p); }
+            } catch (std::exception& e) { viol("writer:exception:" + exc_name(e), e.what(), where); continue; }
+            R.count("files_written_by_packetwriter"); R.count("built_packet_files");
+            if (mon_error()) viol(Mon::first, Mon::first_detail + " while writing", where);
+            Bytes img = wf.get();
+            uint32_t lt = 0, snap = 0; std::vector<Rec> got;
+            std::string prob = parse_image(img, lt, snap, got);
+            if (!prob.empty()) { viol("writer:file-structure", prob, where); continue; }
+            if (lt != cx.link->file_linktype) { viol("writer:link-type", "file says " + str(lt) + ", expected " + str(cx.link->file_linktype), where); continue; }
+            if (got.size() != nrec) { viol("writer:record-count", "wrote " + str(nrec) + " packets, file has " + str(got.size()), where); continue; }
+            bool bad = false;
+            std::vector<Exp> wexp;
+            for (size_t i = 0; i < got.size() && !bad; ++i) {
+                R.count("writer_record_headers_checked");
+                if (got[i].data != g.b) { viol("writer:bytes", "record " + str(i) + ": " + str(got[i].data.size()) + " bytes in file, an identical packet serializes to " + str(g.b.size()), where); bad = true; }
+                else if (got[i].len < got[i].caplen) { viol("writer:original-length-below-captured-length", "record " + str(i) + ": len " + str(got[i].len) + " < caplen " + str(got[i].caplen), where); bad = true; }
+                else if (got[i].len != got[i].caplen) { viol("writer:original-length", "record " + str(i) + ": len " + str(got[i].len) + ", caplen " + str(got[i].caplen) + " for a packet that was never truncated", where); bad = true; }
+                else if (snap < got[i].caplen) { viol("writer:snaplen", "file snaplen " + str(snap) + " < record of " + str(got[i].caplen), where); bad = true; }
+                else if ((mode == 0 || mode == 3) && (got[i].ts.sec != t.sec || got[i].ts.usec != t.usec)) { viol("writer:timestamp", "record " + str(i), where); bad = true; }
+                else if (got[i].ts.usec >= 1000000u) { viol("writer:timestamp", "microseconds field " + str(got[i].ts.usec), where); bad = true; }
+                if (g.p.ok) wexp.push_back(Exp{got[i].ts, &g});
+            }
+            if (bad) continue;
+            read_and_judge("roundtrip", wf.path, wexp, mode % 2 ? R_ITER_PRE : R_NEXT, 0, mode % 2 ? M_EXACT : M_LOOP, C_PATH_CFG, 0, false);
+            for (int fi = NBASE; fi < NFILTERS && mode != 2; ++fi) {
+                if (!cx.orc.valid[fi] || !cx.orc.valid_file[fi]) continue;
+                std::vector<Exp> fexp;
+                for (size_t i = 0; i < got.size(); ++i) if (g.p.ok && cx.orc.match_file(fi, g.b, (uint32_t)g.b.size())) fexp.push_back(Exp{got[i].ts, &g});
+                read_and_judge("roundtrip-filter", wf.path, fexp, R_NEXT, 0, M_LOOP, (fi + mode) % N_CTOR, FILTERS[fi], false);
+            }
+        }
     }
 }
 
@@ -830,6 +989,7 @@ static void init_ctx(Ctx& cx, const Link* l) {
     cx.link = l;
     cx.alpha = alphabet(l->dlt);
     for (auto& f : cx.alpha) cx.gen2.push_back(second_generation(l->dlt, f));
+    set_length_filters(cx.alpha[0].b.size());           // N = size of W1: S has that original length with 40 captured bytes
     MemFile empty;
     empty.set(file_image(l->file_linktype, std::vector<Rec>()));
     cx.orc.init(l->dlt, empty.path);
@@ -893,6 +1053,8 @@ static void setup_checks(Ctx& cx, bool report) {
             viol("parser:non-malformed-exception:" + f.p.how.substr(4), "frame " + f.name + " makes the top-level parser throw something other than malformed_packet", "alphabet");
         if (f.want_fixpoint && !(f.p.ok && f.p.serializable && f.p.ser == f.b))
             viol("harness:alphabet-frame-not-a-serialization-fixpoint", "frame " + f.name + " (" + f.p.how + ", " + str(f.p.ser.size()) + " vs " + str(f.b.size()) + " bytes)", "alphabet");
+        { std::unique_ptr<PDU> fr(build_fresh(cx.link->dlt, f.name));
+          if (fr && fr->serialize() != f.b) viol("harness:builder-differs-from-alphabet-frame", "frame " + f.name, "alphabet"); }
         if ((f.name == "W1" || f.name == "W2" || f.name == "B") && !f.p.ok)
             viol("harness:well-formed-frame-rejected", "frame " + f.name + ": " + f.p.how, "alphabet");
     }
@@ -977,6 +1139,209 @@ static void loop_dlt_observation() {
         res = p ? "packet read back" : "no packet";
     } catch (std::exception& e) { res = "exception " + exc_name(e); }
     R.info["observation_PacketWriter_DataLinkType_Loopback_then_FileSniffer"] = jstr(res);
+}
+
+// ================================================================================================ pseudo-header sweeps
+// Round 6: length / type fields of the pseudo-headers the handlers look into before dispatching, at EVERY value from 0 to
+// frame size + 2 with the rest of the frame fixed (exact-fit values included): PPI pph_len for pph_dlt in {802.11, radiotap,
+// Ethernet, unknown} x 4 field-area layouts, RadioTap it_len (also with a second present word behind the ext bit and an odd
+// header length), LINUX_SLL halen x protocol, the NULL family word.  Every frame alone in a capture and in the middle of a
+// three-frame capture, through next_packet / sniff_loop / iteration; the direct parse runs under the sanitizer monitor too.
+struct SweepFrame { std::string name; Bytes b; };
+static Bytes le16(Bytes b, size_t off, uint32_t v) { b[off] = uint8_t(v); b[off + 1] = uint8_t(v >> 8); return b; }
+static Bytes be16(Bytes b, size_t off, uint32_t v) { b[off] = uint8_t(v >> 8); b[off + 1] = uint8_t(v); return b; }
+static std::vector<SweepFrame> sweep_frames(int dlt) {
+    std::vector<SweepFrame> v;
+    Dot11Data d; d.addr1(M2); d.addr2(M3); d.addr3(M3);
+    const Bytes dot11 = Dot11Data(d / SNAP() / ip_udp_short(5)).serialize();
+    const Bytes eth = EthernetII(EthernetII(M2, M1) / ip_udp_short(18)).serialize();
+    const Bytes ip = ip_udp_short(12).serialize();
+    const Bytes ip6 = IPv6(IPv6("fe80::2", "fe80::1") / UDP(53, 1000) / RawPDU(pattern(5, 9))).serialize();
+    auto sweep = [&](const std::string& base, const Bytes& frame, size_t off, bool little) {
+        for (uint32_t x = 0; x <= frame.size() + 2; ++x) v.push_back(SweepFrame{base + "=" + str(x), little ? le16(frame, off, x) : be16(frame, off, x)});
+    };
+    switch (dlt) {
+    case DLT_PPI: {
+        const Bytes common = {2, 0, 20, 0, 0, 0, 0, 0, 0, 0, 0, 0, 1, 0, 0x6c, 0x09, 0xa0, 0, 0, 0, 0, 0, 0xc4, 0xa0};      // 802.11-common field, FCS-at-end flag set
+        const Bytes radio = RadioTap(RadioTap() / (d / SNAP() / ip_udp_short(5))).serialize();
+        const uint32_t dlts[4] = {105, 127, 1, 0x99};
+        const size_t fields[4] = {0, 12, 13, 24};                 // bytes of field data in front of the inner frame (12 = exactly up to, 13 = including, the flags octet)
+        for (int di = 0; di < 4; ++di)
+            for (int fi = 0; fi < 4; ++fi) {
+                Bytes inner = dlts[di] == 105 ? cat(dot11, Bytes{0xde, 0xad, 0xbe, 0xef}) : dlts[di] == 127 ? radio : dlts[di] == 1 ? eth : pattern(40, 3);
+                Bytes f = cat(cat(ppi_hdr(dlts[di], Bytes()), head(common, fields[fi])), inner);
+                sweep("pph_dlt=" + str(dlts[di]) + ",fields=" + str(fields[fi]) + ",pph_len", f, 2, true);
+            }
+        break; }
+    case DLT_IEEE802_11_RADIO: {
+        Dot11Beacon be; be.addr1(Dot11::BROADCAST); be.addr2(M1); be.addr3(M1); be.ssid("c17");
+        sweep("default-header+beacon,it_len", RadioTap(RadioTap() / be).serialize(), 2, true);
+        sweep("default-header+data,it_len", RadioTap(RadioTap() / (d / SNAP() / ip_udp_short(5))).serialize(), 2, true);
+        {   // two present words (ext bit), only FLAGS present, value 0: 8 + 4 + 1 = 13 bytes of header, not a multiple of 4
+            Bytes h = {0, 0, 13, 0, 0x02, 0, 0, 0x80, 0, 0, 0, 0, 0};
+            sweep("ext-present-word+beacon,it_len", cat(h, Dot11Beacon(be).serialize()), 2, true);
+        }
+        {   // FLAGS = FCS: 9 bytes of header + frame + 4 bytes
+            Bytes h = {0, 0, 9, 0, 0x02, 0, 0, 0, 0x10};
+            sweep("flags-fcs+data,it_len", cat(cat(h, dot11), Bytes{1, 2, 3, 4}), 2, true);
+        }
+        break; }
+    case DLT_LINUX_SLL: {
+        const uint32_t protos[] = {0x0800, 0x86dd, 0x0806, 0x8100, 0x8864, 0x888e, 0x8847, 0x0001, 0x0004, 0x9999};
+        for (uint32_t pr : protos) {
+            Bytes h = {0, 0, 0, 1, 0, 6, 2, 0, 0, 0, 0, 1, 0, 0, uint8_t(pr >> 8), uint8_t(pr)};
+            sweep("protocol=" + str(pr) + ",payload=ipv4,halen", cat(h, ip), 4, false);
+        }
+        { Bytes h = {0, 0, 0, 1, 0, 6, 2, 0, 0, 0, 0, 1, 0, 0, 0x86, 0xdd}; sweep("protocol=34525,payload=ipv6,halen", cat(h, ip6), 4, false); }
+        break; }
+    case DLT_NULL: {
+        const Bytes llc = {0x42, 0x42, 0x03, 0, 0, 0, 0};
+        const Bytes* pl[3] = {&ip, &ip6, &llc};
+        const char* pn[3] = {"ipv4", "ipv6", "llc"};
+        for (int p = 0; p < 3; ++p)
+            for (uint32_t fam = 0; fam <= 40; ++fam) {
+                v.push_back(SweepFrame{std::string("payload=") + pn[p] + ",family=" + str(fam), cat(Bytes{uint8_t(fam), 0, 0, 0}, *pl[p])});
+                v.push_back(SweepFrame{std::string("payload=") + pn[p] + ",family(big-endian)=" + str(fam), cat(Bytes{0, 0, 0, uint8_t(fam)}, *pl[p])});
+            }
+        break; }
+    }
+    return v;
+}
+static const uint64_t SWEEP_INDEX_BASE = 1ull << 40;
+static void run_sweep_frame(Ctx& cx, const SweepFrame& sf, size_t i) {
+    const int dlt = cx.link->dlt;
+    g_case = std::string("lt=") + cx.link->name + " sweep=" + str(i);
+    Frame f; f.name = sf.name; f.b = sf.b; f.len = (uint32_t)sf.b.size(); f.want_fixpoint = false;
+    Mon::reset();
+    f.p = parse_info(dlt, f.b);
+    if (mon_error()) viol("parser:" + Mon::first, Mon::first_detail + " in the link type's top-level parser called directly on the frame", "sweep frame " + sf.name);
+    if (f.p.how.compare(0, 4, "EXC:") == 0) viol("parser:non-malformed-exception:" + f.p.how.substr(4), "the top-level parser throws something other than malformed_packet", "sweep frame " + sf.name);
+    R.count("sweep_frames");
+    R.dist("distinct_outcomes", fnv(std::string("S|") + cx.link->name + "|" + f.p.how + "|" + f.p.layers));
+    if (f.p.ok) R.dist("distinct_nontrivial", fnv(std::string("S|") + cx.link->name + "|" + sf.name.substr(0, sf.name.rfind('=')) + "|" + f.p.layers + "|" + str(f.p.sig.size())));
+    const Frame& w1 = cx.alpha[0]; const Frame& w2 = cx.alpha[1];
+    for (int ctx3 = 0; ctx3 < 2; ++ctx3) {
+        std::vector<Rec> recs; std::vector<Exp> exp;
+        std::vector<const Frame*> fr;
+        if (ctx3) fr.push_back(&w1);
+        fr.push_back(&f);
+        if (ctx3) fr.push_back(&w2);
+        for (size_t j = 0; j < fr.size(); ++j) {
+            const Ts t = TS[(j + i) % 3];
+            recs.push_back(Rec{t, (uint32_t)fr[j]->b.size(), fr[j]->len, fr[j]->b});
+            if (fr[j]->p.ok) exp.push_back(Exp{t, fr[j]});
+        }
+        MemFile mf; mf.set(file_image(cx.link->file_linktype, recs));
+        read_and_judge("sweep", mf.path, exp, R_NEXT, 0, M_LOOP, C_PATH_CFG, 0, false);
+        read_and_judge("sweep", mf.path, exp, R_LOOP_PKTREF, 0, M_EXACT, C_FILE_CFG, 0, false);
+        read_and_judge("sweep", mf.path, exp, R_ITER_PRE, 0, M_DISPATCH, C_PATH_CFG, 0, false);
+    }
+}
+static void pseudo_header_sweep(Ctx& cx, int shard, int nshards, long only = -1) {
+    std::vector<SweepFrame> v = sweep_frames(cx.link->dlt);
+    for (size_t i = 0; i < v.size(); ++i) {
+        if (only >= 0 ? (long)i != only : (int)(i % nshards) != shard) continue;
+        if (skipped(SWEEP_INDEX_BASE + i)) { R.flags["exhaustive"] = false; continue; }
+        if (deadline_reached()) { R.flags["exhaustive"] = false; R.info["cut_at"] = jstr(std::string(cx.link->name) + " pseudo-header sweep"); return; }
+        set_case(SWEEP_INDEX_BASE + i, std::string("pseudo-header sweep ") + cx.link->name, std::string("lt=") + cx.link->name + " sweep=" + str(i));
+        arm_watchdog(120);
+        run_sweep_frame(cx, v[i], i);
+        disarm_watchdog();
+    }
+    if (only >= 0 && (size_t)only < v.size()) printf("sweep frame %ld: %s (%zu bytes)\n", only, v[only].name.c_str(), v[only].b.size());
+}
+
+// ---- histories over ONE SnifferConfiguration object: every sequence of setters up to a length, then FileSniffer(file, config).
+// Only the filter and the sniffing method mean anything for a capture file; the result must be that of the LAST filter and the LAST
+// method set, whatever other setters were called in between (independent setters do not disturb each other).
+static int g_exact_calls = 0, g_dispatch_calls = 0;
+static int counting_exact(pcap_t* p, int cnt, pcap_handler h, u_char* user) { ++g_exact_calls; return exact_method(p, cnt, h, user); }
+static int counting_dispatch(pcap_t* p, int cnt, pcap_handler h, u_char* user) { ++g_dispatch_calls; return pcap_dispatch(p, cnt, h, user); }
+static const char* CFG_OPS[] = {"filter(tcp port 80)", "filter(udp)", "filter()", "method(pcap_loop)", "method(dispatch)", "method(exact)", "promisc", "snap_len(40)",
+                                "timeout(1)", "immediate", "direction(in)", "rfmon", "buffer_size(4096)", "timestamp_precision(nano)"};
+static const int N_CFG_OPS = 14;
+static const int CFG_FILTER_INDEX[3] = {1, 2, 7};
+static void config_history(Ctx& cx, const std::string& path, const std::vector<int>& seq, const std::vector<Ts>& ts, const std::vector<int>& ops, int ctor) {
+    SnifferConfiguration cfg;
+    int flt = -1, method = 0;
+    std::string hs;
+    for (size_t i = 0; i < ops.size(); ++i) {
+        hs += (i ? "," : "") + std::string(CFG_OPS[ops[i]]);
+        switch (ops[i]) {
+            case 0: case 1: case 2: cfg.set_filter(FILTERS[CFG_FILTER_INDEX[ops[i]]]); flt = CFG_FILTER_INDEX[ops[i]]; break;
+            case 3: cfg.set_pcap_sniffing_method(pcap_loop); method = 0; break;
+            case 4: cfg.set_pcap_sniffing_method(counting_dispatch); method = 1; break;
+            case 5: cfg.set_pcap_sniffing_method(counting_exact); method = 2; break;
+            case 6: cfg.set_promisc_mode(true); break;
+            case 7: cfg.set_snap_len(40); break;
+            case 8: cfg.set_timeout(1); break;
+            case 9: cfg.set_immediate_mode(true); break;
+            case 10: cfg.set_direction(PCAP_D_IN); break;
+            case 11: cfg.set_rfmon(true); break;
+            case 12: cfg.set_buffer_size(4096); break;
+            case 13: cfg.set_timestamp_precision(1); break;
+        }
+    }
+    std::vector<Exp> exp;
+    for (size_t i = 0; i < seq.size(); ++i) {
+        const Frame& f = cx.alpha[seq[i]];
+        if (f.p.ok && (flt < 0 || cx.orc.match_file(flt, f.b, f.len))) exp.push_back(Exp{ts[i], &f});
+    }
+    std::string where = "SnifferConfiguration setters in this order: " + (hs.empty() ? std::string("(none)") : hs) + "; then FileSniffer(" + (ctor ? "FILE*" : "path") + ", config)";
+    std::vector<Out> out;
+    std::string problem;
+    g_exact_calls = g_dispatch_calls = 0;
+    Mon::reset();
+    try {
+        std::unique_ptr<FileSniffer> s;
+        if (ctor) { FILE* fp = fopen(path.c_str(), "rb"); s.reset(new FileSniffer(fp, cfg)); } else s.reset(new FileSniffer(path, cfg));
+        problem = run_reader(*s, (int)(ops.size() % 2) ? R_NEXT : R_LOOP_PKTREF, 0, out);
+    } catch (std::exception& e) { viol("config-history:exception-escaped:" + exc_name(e), std::string("what(): ") + e.what(), where); return; }
+    R.count("evaluations"); R.count("config_histories"); ++g_eval;
+    if (mon_error()) viol(Mon::first, Mon::first_detail + " while reading", where);
+    if (!problem.empty()) { size_t b = problem.find('|'); viol("config-history:" + problem.substr(0, b), problem.substr(b + 1), where); }
+    if ((g_exact_calls > 0) != (method == 2) || (g_dispatch_calls > 0) != (method == 1))
+        viol("config-history:sniffing-method-not-the-last-one-set", "calls: custom exact " + str(g_exact_calls) + ", custom dispatch " + str(g_dispatch_calls) +
+             ", last method set: " + (method == 0 ? "pcap_loop/default" : method == 1 ? "dispatch" : "exact"), where);
+    judge("config-history", exp, out, where, false);
+}
+static void config_history_job(int maxlen, long only_link, const std::string* only_ops) {
+    const int links[2] = {0, 1};            // EN10MB, RAW
+    uint64_t index = 0;
+    for (int li = 0; li < 2; ++li) {
+        if (only_link >= 0 && only_link != li) continue;
+        Ctx cx;
+        init_ctx(cx, &LINKS[links[li]]);
+        std::vector<int> seq; std::vector<Ts> ts; std::vector<Rec> recs;
+        for (size_t i = 0; i < cx.alpha.size() && i < 8; ++i) {          // every alphabet frame but the 65535-byte one
+            seq.push_back((int)i); ts.push_back(TS[i % 3]);
+            recs.push_back(Rec{ts.back(), (uint32_t)cx.alpha[i].b.size(), cx.alpha[i].len, cx.alpha[i].b});
+        }
+        MemFile mf; mf.set(file_image(cx.link->file_linktype, recs));
+        if (only_ops) {            // replay of one history
+            std::vector<int> ops;
+            if (*only_ops != "-") { std::istringstream in(*only_ops); std::string t; while (std::getline(in, t, '.')) ops.push_back(atoi(t.c_str()) % N_CFG_OPS); }
+            g_case = "cfghist=" + str(li) + " ops=" + *only_ops;
+            config_history(cx, mf.path, seq, ts, ops, 0);
+            config_history(cx, mf.path, seq, ts, ops, 1);
+            continue;
+        }
+        for (int len = 0; len <= maxlen; ++len) {
+            uint64_t total = 1; for (int i = 0; i < len; ++i) total *= N_CFG_OPS;
+            for (uint64_t x = 0; x < total; ++x) {
+                const uint64_t my = index++;
+                std::vector<int> ops(len);
+                uint64_t y = x;
+                for (int i = len - 1; i >= 0; --i) { ops[i] = (int)(y % N_CFG_OPS); y /= N_CFG_OPS; }
+                std::string os; for (int o : ops) os += (os.empty() ? "" : ".") + str(o);
+                if (skipped(my)) { R.flags["exhaustive"] = false; continue; }
+                if (deadline_reached()) { R.flags["exhaustive"] = false; R.info["cut_at"] = jstr("configuration histories"); return; }
+                g_case = "cfghist=" + str(li) + " ops=" + (os.empty() ? "-" : os);
+                set_case(my, "SnifferConfiguration history", g_case);
+                config_history(cx, mf.path, seq, ts, ops, (int)(x % 2));
+            }
+        }
+    }
 }
 
 // ================================================================================================ object histories
@@ -1233,6 +1598,7 @@ static void writer_history(const std::vector<HOp>& h, WM* w_out) {
         for (size_t j = 0; j < got.size(); ++j) {
             const int no = w.rec[k][j];
             const Ts ts = TS[(no + k) % 3];
+            if (got[j].len != got[j].caplen) { viol("history-writer:original-length", "record " + str(j) + ": len " + str(got[j].len) + ", caplen " + str(got[j].caplen), fw); break; }
             if (got[j].data != wpayload(k, no)) { viol("history-writer:bytes", "record " + str(j) + " is not packet #" + str(no) + " written to this file", fw); break; }
             if (got[j].ts.sec != ts.sec || got[j].ts.usec != ts.usec) { viol("history-writer:timestamp", "record " + str(j), fw); break; }
         }
@@ -1297,10 +1663,15 @@ static const HJob HJOBS_THOROUGH[] = {
     {"NULL,EN10MB,IEEE802_11", 4, true, true}, {"PPI,LINUX_SLL,RAW", 4, true, true}, {"LINUX_SLL,NULL,IEEE802_11_RADIO", 4, true, true},
     {"IEEE802_11,PPI,EN10MB", 4, true, true}, {"EN10MB,IEEE802_11_RADIO,RAW", 4, true, true},
 };
-static int n_hist_jobs() { return (A.thorough() ? (int)(sizeof HJOBS_THOROUGH / sizeof HJOBS_THOROUGH[0]) : (int)(sizeof HJOBS_QUICK / sizeof HJOBS_QUICK[0])) + 1; }
+static int n_hist_jobs() { return (A.thorough() ? (int)(sizeof HJOBS_THOROUGH / sizeof HJOBS_THOROUGH[0]) : (int)(sizeof HJOBS_QUICK / sizeof HJOBS_QUICK[0])) + 2; }
 static void run_history_job(int j) {
     uint64_t index = 0;
-    const int ns = n_hist_jobs() - 1;
+    const int ns = n_hist_jobs() - 2;
+    if (j == ns + 1) {
+        config_history_job(A.thorough() ? 4 : 3, -1, 0);
+        R.sample(jstr("configuration history case, e.g. 'cfghist=0 ops=0.4.6' = set_filter(tcp port 80), set_pcap_sniffing_method(dispatch), set_promisc_mode on one SnifferConfiguration, then FileSniffer(file, config)"));
+        return;
+    }
     if (j == ns) {
         writer_history_bfs(A.thorough() ? 3 : 2, index);
         R.sample(jstr("writer history case, e.g. 'hist=writer maxrec=2 ops=o00,w0,A01,w0,c0' (o open, w write, A move-assign from a fresh writer, a move-assign slot<-slot, m move-construct, c destroy)"));
@@ -1344,7 +1715,9 @@ static void run_job(int job) {
     set_case(0, std::string("setup ") + l->name, std::string("lt=") + l->name + " setup=1");
     setup_checks(cx, shard == 0);
     if (shard == 0) invalid_filter_checks(cx);
+    if (shard == 0 && !skipped(30)) { set_case(30, std::string("built packets ") + l->name, std::string("lt=") + l->name + " built=all"); built_packet_checks(cx); }
     if (shard == 0 && l->dlt == DLT_NULL) loop_dlt_observation();
+    pseudo_header_sweep(cx, shard, sh);
     const int a = (int)cx.alpha.size();
     uint64_t index = 32;                      // 0: setup, 1..9 and 16..24: invalid-filter cases
     bool cut = false;
@@ -1393,6 +1766,13 @@ static int replay_history(std::map<std::string, std::string>& kv, const std::str
 static int replay(const std::string& kase) {
     auto kv = kvparse(kase);
     if (kv.count("hist")) return replay_history(kv, kase);
+    if (kv.count("cfghist")) {
+        std::string ops = kv["ops"];
+        config_history_job(6, atol(kv["cfghist"].c_str()), &ops);
+        for (auto& v : R.violations) printf("violation reproduced: %s (x%llu)\n   %s\n", v.first.c_str(), (unsigned long long)v.second.count, v.second.detail.c_str());
+        if (R.violations.empty()) { printf("configuration history replayed, no violation\n"); return 0; }
+        return 1;
+    }
     const Link* l = 0;
     for (int i = 0; i < NLINKS; ++i) if (kv["lt"] == LINKS[i].name) l = &LINKS[i];
     if (!l) { printf("unknown link type in case '%s'\n", kase.c_str()); return 2; }
@@ -1401,6 +1781,8 @@ static int replay(const std::string& kase) {
     setup_checks(cx, false);
     if (kv.count("setup")) { /* setup checks only */ }
     else if (kv.count("invalidfilter")) invalid_filter_checks(cx, atoi(kv["invalidfilter"].c_str()));
+    else if (kv.count("built")) built_packet_checks(cx);
+    else if (kv.count("sweep")) pseudo_header_sweep(cx, 0, 1, atol(kv["sweep"].c_str()));
     else {
         std::vector<int> seq;
         if (!decode_seq(cx.alpha, kv["seq"], seq)) { printf("unknown frame name in '%s'\n", kv["seq"].c_str()); return 2; }
@@ -1418,6 +1800,6 @@ static int replay(const std::string& kase) {
 }
 
 int main(int argc, char** argv) {
-    const int hq = (int)(sizeof HJOBS_QUICK / sizeof HJOBS_QUICK[0]) + 1, ht = (int)(sizeof HJOBS_THOROUGH / sizeof HJOBS_THOROUGH[0]) + 1;
+    const int hq = (int)(sizeof HJOBS_QUICK / sizeof HJOBS_QUICK[0]) + 2, ht = (int)(sizeof HJOBS_THOROUGH / sizeof HJOBS_THOROUGH[0]) + 2;
     return run_main(argc, argv, NLINKS * 4 + hq, NLINKS * 16 + ht, run_job, replay);
 }
